@@ -50,7 +50,8 @@ ASSUMPTIONS = [
     'the exception discipline and the running time are runtime facts: they are decided by the direct predicate on the '
     'implementation, the Lean theorems are about the loader as a state machine',
     "uuid texts whose 32 significant characters contain characters that only Python's int(x, 16) accepts (underscore, "
-    'blanks, sign, 0x, non-ASCII digits) and numerals of more than 4000 digits are outside the correspondence (D still applies)',
+    'blanks, sign, 0x, non-ASCII digits) and numerals of more than 4000 digits are outside the correspondence (D still applies); '
+    'texts with __x__ identifiers are INSIDE (rejected with MetaModelException at build since 7fb506e)',
 ]
 CHUNK = 1500
 CASE_TIMEOUT_S = 60
@@ -61,7 +62,10 @@ _x = None
 RESERVED = gen_schema.RESERVED
 DUNDER = re.compile(r'__\w+__')
 PYATTRS = ['mro']          # the names every python class has besides the dunders (dir(type)); none comes from xtuml.Class
-DUNDERS = ['__class__', '__dict__', '__metaclass__', '__hash__', '__init__', '__weakref__', '__getattribute__', '__name__']
+# names of the form __x__ (`_is_reserved`): define_class / define_association raise MetaModelException for them in attribute
+# positions; expected outcome of such texts: accepted by input(), `meta` at build -- never a built-in exception
+DUNDERS = ['__class__', '__dict__', '__metaclass__', '__hash__', '__init__', '__weakref__', '__getattribute__', '__name__',
+           '__a__', '_____', '__x', 'x__', '____', '__A_B__']
 
 
 def setup(ctx):
@@ -91,7 +95,7 @@ def g_case(rng, w):
 
 def g_ident(rng, dunder_ok=True):
     r = rng.random()
-    if dunder_ok and r < 0.004:
+    if dunder_ok and r < 0.012:
         return rng.choice(DUNDERS)
     if r < 0.014:
         return rng.choice(PYATTRS + PYATTRS + [w.upper() for w in PYATTRS] + [w.capitalize() for w in PYATTRS])
@@ -401,10 +405,11 @@ def g_family(rng):
         acls, bcls, j = rng.choice(['A', 'a', 'Dog']), rng.choice(['B', 'Owner']), rng.choice(['j', 'Ref', a1])
         skey, tkey = j, rng.choice([a1, a2, a2])
     else:
-        pool = PYATTRS + ['i', 'j', 'A', 'B']
+        special = PYATTRS + ([rng.choice(DUNDERS)] if rng.random() < 0.6 else [])     # `mro`, and names of the form __x__
+        pool = special + ['i', 'j', 'A', 'B']
         a1, a2 = rng.choice(pool), rng.choice(['k', 'n_2'])
-        acls, bcls, j = rng.choice(['A', 'A'] + PYATTRS), rng.choice(['B', 'B'] + PYATTRS), rng.choice(pool)
-        skey, tkey = rng.choice([j] + PYATTRS), rng.choice([a1, a1] + PYATTRS)
+        acls, bcls, j = rng.choice(['A', 'A'] + special), rng.choice(['B', 'B'] + special), rng.choice(pool)
+        skey, tkey = rng.choice([j] + special), rng.choice([a1, a1] + special)
         if acls.upper() == bcls.upper():
             bcls = 'B'
     t1, t2, t3 = rng.choice(core), rng.choice(core), rng.choice(core)
@@ -423,7 +428,7 @@ def g_family(rng):
             ends.reverse()
         stmts.append('CREATE ROP REF_ID R1 FROM %s %s (%s) TO %s %s (%s);' % (ends[0] + ends[1]))
     if rng.random() < 0.3:
-        stmts.append('CREATE UNIQUE INDEX %s ON %s (%s);' % (rng.choice(['I1'] + PYATTRS), acls, rng.choice([a1, a2, tkey])))
+        stmts.append('CREATE UNIQUE INDEX %s ON %s (%s);' % (rng.choice(['I1'] + PYATTRS + DUNDERS[:3]), acls, rng.choice([a1, a2, tkey])))
     for _ in range(rng.randint(0, 2)):
         stmts.append('INSERT INTO %s VALUES (%s);' % (bcls, val(t3)))
     for _ in range(rng.randint(0 if declared else 1, 2)):
@@ -500,20 +505,6 @@ def _classify_build_exc(e, statements):
     if isinstance(e, _x.MetaException):
         return 'meta'
     return None
-
-
-def _has_dunder(statements):
-    for s in statements:
-        for v in s.__dict__.values():
-            if isinstance(v, str) and DUNDER.fullmatch(v):
-                return True
-            if isinstance(v, (list, tuple)):
-                for w in v:
-                    if isinstance(w, str) and DUNDER.fullmatch(w):
-                        return True
-                    if isinstance(w, (list, tuple)) and any(isinstance(u, str) and DUNDER.fullmatch(u) for u in w):
-                        return True
-    return False
 
 
 def _build(loader):
@@ -680,13 +671,11 @@ def run_impl(case):
     reals = _reals_obs(loader.statements)
     deep_before_build = _deep(loader.statements)
     outcome, m, exc = _build(loader)
-    dunder = _has_dunder(loader.statements)
     if outcome == 'builtin':
-        if dunder:
-            fail('build-builtin:dunder-identifier', 'build_metamodel raised %s (%s) for input with a __x__ identifier: %r' % (
-                type(exc).__name__, str(exc)[:120], [t[:300] for t in accepted]))
-        elif any(type(s).__name__ == 'CreateAssociationStmt' and len(s.source_keys) != len(s.target_keys)
-                 for s in loader.statements):
+        # no known finding is left for C12 (the `__x__` names are rejected with MetaModelException since 7fb506e): every
+        # built-in exception is a failure
+        if any(type(s).__name__ == 'CreateAssociationStmt' and len(s.source_keys) != len(s.target_keys)
+               for s in loader.statements):
             fail('build-builtin:rop-key-count-mismatch', 'build_metamodel raised %s (%s) for input with a CREATE ROP whose key '
                  'lists differ in length: %r' % (type(exc).__name__, str(exc)[:120], [t[:400] for t in accepted]))
         else:
@@ -797,8 +786,6 @@ HEX32 = re.compile(r'^[0-9a-fA-F]{32}$')
 
 def _outside_model(text):
     """texts the model deliberately does not cover (see ASSUMPTIONS)"""
-    if DUNDER.search(text):
-        return True
     if re.search(r'\d{4000}', text):
         return True
     for q in GUID_RE.findall(text) + re.findall(r"'((?:''|[^'])*)'", text):
